@@ -57,7 +57,7 @@ def run(ctx):
         ctx.account(kf)
         kb = [b for b in kf.emitted if b[-1].get("kfs")]
         ctx.log("MC_refs_kf: %d generated / %d distinct; %d witnesses, %d pass a known-finding trigger" % (kf.generated, kf.distinct, len(kf.emitted), len(kb)))
-        behs += kb
+        behs += (rnd.sample(kb, 8) if q and len(kb) > 8 else kb)
         # DESIGN H10 end to end: the retired ref's out-of-order chunk ends up under the new series' labels
         h10 = ctx.tlc("db", "Refs", "MC_refs_h10.cfg", workers=1, timeout=3000)
         ctx.account(h10)
@@ -65,8 +65,11 @@ def run(ctx):
         ctx.log("MC_refs_h10: %d generated / %d distinct; %d witnesses, %d pass the trigger" % (h10.generated, h10.distinct, len(h10.emitted), len(hb)))
         behs += hb
     # seeded walks: free, and along the scenario skeletons (checkpoint / fast startup / out-of-order ghosts)
-    for cfg, part, depth, n in (("SIM_refs.cfg", "sim", 16, 4), ("SIM_refs_ckpt.cfg", "ckpt", 14, 4),
-                                ("SIM_refs_fast.cfg", "fastsim", 12, 3), ("SIM_refs_ooo.cfg", "ooo", 16, 3)):
+    sims = [("SIM_refs.cfg", "sim", 16, 4), ("SIM_refs_ckpt.cfg", "ckpt", 14, 4),
+            ("SIM_refs_fast.cfg", "fastsim", 12, 3), ("SIM_refs_ooo.cfg", "ooo", 16, 3)]
+    if q and not ctx._parts:
+        sims = [sims[0], sims[1 + ctx.seed % 3]]       # quick tier: the free walks and one skeleton, chosen by the seed
+    for cfg, part, depth, n in sims:
         if not ctx.want(part):
             continue
         sim = ctx.tlc("db", "Refs", cfg, simulate=(n if q else 25 * n), depth=depth + 3, workers=4,
